@@ -282,6 +282,14 @@ func GenWorld(t *rapid.T) *World {
 		if sp.Apex == "." {
 			continue
 		}
+		// a label holding a literal dot, spelled so that the owner reads like a name inside the child zone
+		// ("t\.example.test." is the label "t.example" under test., not a name in example.test.)
+		for _, child := range apexes {
+			if vfmodel.StrictSubdomain(child, sp.Apex) && len(vfmodel.Labels(child)) == len(vfmodel.Labels(sp.Apex))+1 &&
+				rapid.IntRange(0, 2).Draw(t, sp.Apex+".escdot") == 0 {
+				sp.Owners["t\\."+child] = []uint16{dns.TypeA, dns.TypeTXT}
+			}
+		}
 		if rapid.IntRange(0, 2).Draw(t, sp.Apex+".wildpair") == 0 {
 			// a wildcard next to a concrete sibling of the same types
 			sp.Owners[at("*.w")] = []uint16{dns.TypeA, dns.TypeTXT}
